@@ -32,6 +32,19 @@ type VerifAbort struct {
 // panics with VerifAbort. nil hook = writes pass through.
 var VerifWriteHook func(op string, key []byte, nvalues int) bool
 
+// VerifWriteFault, when non-nil, is asked before every physical write of a wrapped database
+// (same op/key as VerifWriteHook). A non-nil result makes THAT write fail: it is not performed
+// and the error is returned to the caller, which carries on — a store write that returns an
+// error, as opposed to VerifWriteHook's process death.
+var VerifWriteFault func(op string, key []byte) error
+
+func verifFault(op string, key []byte) error {
+	if f := VerifWriteFault; f != nil {
+		return f(op, key)
+	}
+	return nil
+}
+
 var verifWriteSeq uint64
 
 // VerifWriteCount is the number of physical writes let through so far.
@@ -66,10 +79,16 @@ func VerifUnwrap(d Database) Database {
 }
 
 func (d *verifDB) Put(key []byte, value []byte) error {
+	if err := verifFault("put", key); err != nil {
+		return err
+	}
 	verifGate("put", key, 1)
 	return d.inner.Put(key, value)
 }
 func (d *verifDB) Delete(key []byte) error {
+	if err := verifFault("delete", key); err != nil {
+		return err
+	}
 	verifGate("delete", key, 1)
 	return d.inner.Delete(key)
 }
@@ -91,6 +110,9 @@ func (b *verifBatch) Put(key, value []byte) error { b.n++; return b.inner.Put(ke
 func (b *verifBatch) ValueSize() int              { return b.inner.ValueSize() }
 func (b *verifBatch) Reset()                      { b.n = 0; b.inner.Reset() }
 func (b *verifBatch) Write() error {
+	if err := verifFault("batch", nil); err != nil {
+		return err
+	}
 	verifGate("batch", nil, b.n)
 	return b.inner.Write()
 }
